@@ -649,6 +649,12 @@ def dispatchMessage (s : St) (cid : Nat) (m : AMsg) (info : MsgInfo) : St :=
     else if Config.gateClosing && (c.state == .closing || c.state == .closed || c.state == .connecting) then s
     else receiveMessage s cid m info
 
+/-- effective timer: the peer's value if set (non-zero: `peer.x or node.x`), else the node's -/
+def effTimer (po : Option Nat) (d : Nat) : Nat :=
+  match po with
+  | some v => if v == 0 then d else v
+  | none => d
+
 /-- `_check_timers(conn)`. -/
 def checkTimers (s : St) (cid : Nat) : St :=
   if s.stopping then s
@@ -656,14 +662,10 @@ def checkTimers (s : St) (cid : Nat) : St :=
     | none => s
     | some c =>
       let peer : Option Peer := (findConnectionPeer s c).bind (fun i => s.peers[i]?)
-      let pick (po : Option Nat) (d : Nat) : Nat :=
-        match po with
-        | some v => if v == 0 then d else v
-        | none => d
-      let idle : Nat := pick (peer.bind (fun p => p.idleTo)) s.cfg.idle
-      let dwa : Nat := pick (peer.bind (fun p => p.dwaTo)) s.cfg.dwa
-      let cea : Nat := pick (peer.bind (fun p => p.ceaTo)) s.cfg.cea
-      let cer : Nat := pick (peer.bind (fun p => p.cerTo)) s.cfg.cer
+      let idle : Nat := effTimer (peer.bind (fun p => p.idleTo)) s.cfg.idle
+      let dwa : Nat := effTimer (peer.bind (fun p => p.dwaTo)) s.cfg.dwa
+      let cea : Nat := effTimer (peer.bind (fun p => p.ceaTo)) s.cfg.cea
+      let cer : Nat := effTimer (peer.bind (fun p => p.cerTo)) s.cfg.cer
       if c.state == .connected then
         let since := if Config.ceTimeoutFromEstablished then s.now - c.established else s.now - c.lastRead
         if c.dir == .send && Nat.blt cea since then closeConnectionSocket s cid .failCe
